@@ -36,10 +36,30 @@ def sky_roundtrip(ctx, rnd, s, win, wlo, whi, idx, wcs_pool):
         ctx.violation(f"C08|sky|{kind_sig(s)}|{type(ex).__name__}", f'to_sky/to_pixel raised {ex!r}', case)
         return
     ctx.case(('sky', geom.shape_key(s), wname), geom.nontrivial_answers(win))
+    xs_u, ys_u = geom.window(wlo, whi)
+    if s['k'] == 'compound':
+        # the sky compound answers op(answers of its sky operands), negated as a whole when excluded - for ANY WCS, distorted or not
+        # (a Boolean identity: no tolerance, no model needed)
+        import operator
+        OPF = {'and': operator.and_, 'or': operator.or_, 'xor': operator.xor}
+        scq = w.pixel_to_world(xs_u / U + fr.tx, ys_u / U + fr.ty)
+        try:
+            whole = np.asarray(sky.contains(scq, w))
+            parts = OPF[s['op']](np.asarray(sky.region1.contains(scq, w)), np.asarray(sky.region2.contains(scq, w)))
+            if not bool(sky.meta.get('include', True)):
+                parts = np.logical_not(parts)
+        except Exception as ex:  # noqa
+            ctx.violation(f"C08|sky-identity|{kind_sig(s)}|{type(ex).__name__}", f'sky compound contains raised {ex!r}', case)
+            return
+        if whole.shape != parts.shape or (whole != parts).any():
+            ctx.violation(f'C08|sky-identity|{kind_sig(s)}', f'{int((whole != parts).sum()) if whole.shape == parts.shape else "all"} sky positions: the sky compound does not answer '
+                          f'{s["op"]}(answers of its operands)', case)
+            return
+    if wname.startswith('TAN-SIP'):
+        return          # a distorted WCS does not map shapes onto shapes: only the identity above is exact
     if dict(pix.meta) != dict(region.meta) or dict(pix.visual) != dict(region.visual):
         ctx.violation(f'C08|sky-meta|{via(s)}', f'compound meta/visual after pixel->sky->pixel: {dict(pix.meta)} (was {dict(region.meta)})', case)
         return
-    xs_u, ys_u = geom.window(wlo, whi)
     xs = xs_u / U + fr.tx
     ys = ys_u / U + fr.ty
     model = np.asarray(win)
@@ -89,7 +109,8 @@ def run(ctx):
     rnd = random.Random(ctx.seed * 1000003 + 8)
     wcs_pool = [('TAN icrs 1e-3 rot 3-4-5', wcsutil.make_wcs(1e-3, (3, 4, 5), 1, 'icrs', 'TAN', (30, 20), (5, 5))),
                 ('SIN galactic 2e-4 rot -12-5-13 flipped', wcsutil.make_wcs(2e-4, (-12, 5, 13), -1, 'galactic', 'SIN', (120, -45), (0, 3))),
-                ('CAR fk5 5e-4', wcsutil.make_wcs(5e-4, (1, 0, 1), 1, 'fk5', 'CAR', (200, 0), (10, 10)))]
+                ('CAR fk5 5e-4', wcsutil.make_wcs(5e-4, (1, 0, 1), 1, 'fk5', 'CAR', (200, 0), (10, 10))),
+                ('TAN-SIP icrs 3e-4 (distorted)', wcsutil.make_sip_wcs())]
     # 1. membership + sky conversion
     fam = 'FamCompound'
     res = tlc.run('MC_Geometry', cfg_text=cfg(fam, 'OpsContains', -14, 20, []), dump=True, coverage=True, tag='c08')
